@@ -142,6 +142,24 @@ pub fn update_vpl(source: &str, a: &UpdateArgs) -> String {
 pub fn build_vector_source(rng: &mut Rng, kind: usize, dir: &Path, _max_tiles: usize) -> Result<Built, String> {
 	let class = kind_name(kind);
 	let enc = imvt::EncOpts { foreign_field_order: rng.chance(0.5), ..Default::default() };
+	if kind == 23 {
+		// merged vector sources, one of them itself a merge, below a zoom filter and a property update
+		let go = imvt::GenOpts { extreme_values: false, unknown_geom: false, big_ids: false, id_field: Some("osm_id".into()), ..Default::default() };
+		let mixed = rng.bool();
+		let sets = gen_vector_sets(rng, 3, &go, mixed, &enc);
+		let csv = gen_csv(rng);
+		std::fs::write(dir.join("data.csv"), &csv.text).map_err(|e| e.to_string())?;
+		let mut sources = Sources::new();
+		let mut known = BTreeSet::new();
+		for (i, s) in sets.iter().enumerate() {
+			known.extend(s.blobs.keys().cloned());
+			sources.add(&format!("v{i}.x"), Src::Mem { ts: s.tileset(&format!("v{i}")), pyramid: None, default_stream: rng.chance(0.3), yields: if rng.chance(0.4) { 1 } else { 0 }, open_yields: 0 });
+		}
+		let zmax = known.iter().map(|k| k.0).max().unwrap_or(0);
+		let vpl = format!("from_vectortiles_merged [ from_container filename=v0.x | filter_zoom max={zmax}, from_vectortiles_merged [ from_container filename=v1.x, from_container filename=v2.x ] ] | vectortiles_update_properties data_source_path=\"data.csv\" layer_name=roads id_field_tiles=osm_id id_field_data=id | filter_zoom min=0");
+		let (r, logs) = guard::block_on(pipe::build(&vpl, &sources, Some(dir))).map_err(|e| format!("{vpl}: {e:#}"))?;
+		return Ok(Built { reader: Box::new(r), class, describe: json!({"vpl": vpl}), known, model: None, logs: Some(logs) });
+	}
 	if kind == 18 {
 		let go = imvt::GenOpts { extreme_values: false, unknown_geom: false, big_ids: false, ..Default::default() };
 		let (n, mixed) = (rng.range(2, 4) as usize, rng.bool());
